@@ -3,7 +3,7 @@
 set -u
 P="$1/patch.diff"
 cd /repo && git diff --quiet || { echo "repo dirty"; exit 3; }
-git apply "$P" 2>/dev/null || git apply -3 "$P" 2>/dev/null || patch -p1 -F3 -s < "$P" || { echo "PATCH DOES NOT APPLY"; git checkout -- .; exit 3; }
+git apply "$P" 2>/dev/null || patch -p1 -F3 -s < "$P" || { echo "PATCH DOES NOT APPLY"; git reset -q --hard HEAD; find . -name '*.rej' -o -name '*.orig' | xargs rm -f; exit 3; }
 git -C /repo diff --stat | tail -1
 cd /verif && ./bin/check "$2" --tier "${3:-quick}" 2>&1 | grep -v -e WARNING -e UserWarning -e warnings.warn | tail -${TAILN:-4}
 echo "exit=${PIPESTATUS[0]}"
